@@ -79,7 +79,7 @@ def compare(impl, model):
         return 'model predicts %s, implementation %s %s' % (model['err'], impl.get('err', 'returned'), impl.get('msg', ''))
     if 'err' in impl:
         return 'model predicts a result, implementation %s (%s)' % (impl['err'], impl.get('msg', '')[:150])
-    exact = model.get('bits', 9999) <= 53
+    exact = model.get('bits', 9999) <= 49       # see learners.EXACT_BITS
     rows, cols = model['rows'], model['cols']
     mc = {(rows[i], cols[j]): frac(v) for i, j, v in model['cells']}
     ic = {}
